@@ -48,7 +48,7 @@ func NewOrderedPartition(n, m int, vertexClasses [][]int) *CanonicalOrderedParti
 			for j := range vertexClasses[i] {
 				v := vertexClasses[i][j]
 				order[index] = v
-				inCell[v] = j
+				inCell[v] = i
 				index++
 			}
 			binDividers[i] = index
@@ -59,8 +59,11 @@ func NewOrderedPartition(n, m int, vertexClasses [][]int) *CanonicalOrderedParti
 	for i := range binAges {
 		binAges[i] = 0
 	}
-	binsToCheck := make([]int, 1, n)
-	binsToCheck[0] = 0
+	//Every initial bin must be checked.
+	binsToCheck := make([]int, len(binDividers), n)
+	for i := range binsToCheck {
+		binsToCheck[i] = i
+	}
 	value := make([]int, 0, m)
 	return &CanonicalOrderedPartition{order: order, binDividers: binDividers, binAges: binAges, binsToCheck: binsToCheck, value: value, inCell: inCell}
 }
@@ -98,7 +101,7 @@ func (op *CanonicalOrderedPartition) Reset(n, m int, vertexClasses [][]int) {
 			for j := range vertexClasses[i] {
 				v := vertexClasses[i][j]
 				op.order[index] = v
-				op.inCell[v] = j
+				op.inCell[v] = i
 				index++
 			}
 			op.binDividers[i] = index
@@ -111,8 +114,11 @@ func (op *CanonicalOrderedPartition) Reset(n, m int, vertexClasses [][]int) {
 	}
 
 	if n > 0 {
-		op.binsToCheck = op.binsToCheck[:1]
-		op.binsToCheck[0] = 0
+		//Every initial bin must be checked.
+		op.binsToCheck = op.binsToCheck[:len(op.binDividers)]
+		for i := range op.binsToCheck {
+			op.binsToCheck[i] = i
+		}
 	}
 
 	op.value = op.value[:0]
@@ -515,53 +521,48 @@ func CanonicalIsomorphAllocated(n, m int, neighbours [][]int, op *CanonicalOrder
 	//Handle the special case where m = 0.
 	//TODO: Check if this is necessary.
 	if m == 0 {
-		//Return the identity permutation.
+		//The initial order is already canonical: the classes in order, each sorted.
 		perm := storage.currentBestPerm[:n]
-		for i := 0; i < n; i++ {
-			perm[i] = i
-		}
-		//Every vertex is in the same orbit.
+		copy(perm, op.order)
+		//Every vertex class is an orbit and the automorphism group is generated by a cycle and a transposition on each class.
 		ds := storage.firstLeafOrbits[:n]
-		ds[0] = -2
-		for i := 1; i < n; i++ {
-			ds[i] = 0
+		generators := storage.generators[:0]
+		addGenerator := func() []int {
+			generators = generators[:len(generators)+1]
+			tmp := generators[len(generators)-1]
+			if cap(tmp) < n {
+				tmp = make([]int, n)
+			} else {
+				tmp = tmp[:n]
+			}
+			for i := range tmp {
+				tmp[i] = i
+			}
+			generators[len(generators)-1] = tmp
+			return tmp
 		}
-
-		if n == 1 {
-			return perm, ds, storage.generators[:0]
+		start := 0
+		for _, end := range op.binDividers {
+			class := op.order[start:end]
+			start = end
+			if len(class) == 1 {
+				ds[class[0]] = -1
+				continue
+			}
+			ds[class[0]] = -2
+			for _, v := range class[1:] {
+				ds[v] = class[0]
+			}
+			tmp := addGenerator()
+			for i, v := range class {
+				tmp[v] = class[(i+1)%len(class)]
+			}
+			if len(class) > 2 {
+				tmp = addGenerator()
+				tmp[class[0]] = class[1]
+				tmp[class[1]] = class[0]
+			}
 		}
-
-		generators := storage.generators[:1]
-		tmp := generators[0]
-		if cap(tmp) < n {
-			tmp = make([]int, n)
-		} else {
-			tmp = tmp[:n]
-		}
-		for i := range tmp {
-			tmp[i] = i + 1
-		}
-		tmp[n-1] = 0
-		generators[0] = tmp
-
-		if n == 2 {
-			return perm, ds, generators
-		}
-
-		generators = generators[:2]
-
-		tmp = generators[1]
-		if cap(tmp) < n {
-			tmp = make([]int, n)
-		} else {
-			tmp = tmp[:n]
-		}
-		for i := range tmp {
-			tmp[i] = i
-		}
-		tmp[0] = 1
-		tmp[1] = 0
-		generators[1] = tmp
 		return perm, ds, generators
 	}
 
@@ -586,6 +587,9 @@ func CanonicalIsomorphAllocated(n, m int, neighbours [][]int, op *CanonicalOrder
 	numberOfMax := storage.numberOfMax[:n]
 
 	skipDeage := false
+
+	//If there are vertex classes, the partition may start with singleton bins which already contribute to the value.
+	op.expandValue(neighbours, currentBest, firstLeaf)
 
 	//Split the partition.
 	//We split here and at the end of the loop so we can easily handle the CheckViable option. It wouldn't be hard to check it the other way but might require a
